@@ -169,8 +169,6 @@ package api
 
 // ---- OCRA ------------------------------------------------------------------------
 
-//@ func otp.MustRawSuite(raw) (r)
-//@   ensures maphas(knownSuites, raw) ==> samecfg(r.SuiteConfig, mapget(knownSuites, raw)) && r.SuiteConfig.Raw == raw
 
 //@ macro ocrabad(b) = trim(jstr(b, "secret")) == "" || (trim(jstr(b, "raw_suite")) == "" && !jhas(b, "suite")) ||
 //@ |   (trim(jstr(b, "raw_suite")) != "" && !maphas(knownSuites, jstr(b, "raw_suite"))) || !jhas(b, "input")
